@@ -1260,7 +1260,7 @@ class ChoicePayloadDecoder(ConstructedPayloadDecoderBase):
         effectiveTagSet = component.effectiveTagSet
 
         if LOG:
-            LOG('decoded component %s, effective tag set %s' % (component, effectiveTagSet))
+            LOG('decoded component %s, effective tag set %s' % (component.prettyPrint(), effectiveTagSet))
 
         asn1Object.setComponentByType(
             effectiveTagSet, component,
@@ -1322,7 +1322,7 @@ class ChoicePayloadDecoder(ConstructedPayloadDecoderBase):
 
                 if LOG:
                     LOG('decoded component %s, effective tag set '
-                        '%s' % (component, effectiveTagSet))
+                        '%s' % (component.prettyPrint(), effectiveTagSet))
 
                 asn1Object.setComponentByType(
                     effectiveTagSet, component,
